@@ -163,6 +163,11 @@ def run(ctx, rep):
     table_rules(ctx, facts, rep)
     misuse_rules(facts, rep)
     align_rules(facts, rep)
+    from rules.C12 import ts_rules
+    ts_rules(facts, rep)               # reported as C17/C12-TS
+    from rules.C02 import limit_rules, narrow_rules
+    limit_rules(facts, rep)            # reported as C17/C02-LIMIT: the extra-data size guard is the 16-bit field's capacity
+    narrow_rules(ctx, facts, rep)      # reported as C17/C02-NARROW: the back-patched extra length is a checked conversion: extra-data mode (local / central-only) belongs to one entry and ends with it
     from rules.C03 import acc_rules
     acc_rules(facts, rep)
     rep.assume("the alignment identity (align - (x + 4) % align) % align is correct modular arithmetic (not machine-checked here)")
